@@ -126,3 +126,70 @@ Theorem C11_copy_never_faults :
 Proof. exact copy_never_faults. Qed.
 Print Assumptions C11_copy_never_faults.
 
+
+(* ------------------------------------------------------------------------------------------ *)
+(* Translator tie of cbor_copy (translator/effects.py renders it as five plans: entry — with the static
+   helpers _cbor_copy_int / _cbor_copy_float_ctrl inlined — and one round of each of its four loops;
+   gen/Gen_effects_copy.v; Bridge_effects_copy.v; HPlansCopy_proofs.v): what the model's [copy] does per
+   type and per loop round is what the plans generated from the C source say — a definite array copy is
+   sized by the SIZE of the source; a round copies the child, attaches the COPY (never the source
+   child) and releases its own reference to the copy; an integer is rebuilt with the builder of its
+   width and marked negative only when the allocation succeeded. *)
+From Coq Require Import ZArith String List.
+From CB Require Import GenLeafTypes HPlans HPlansSer HPlansCopy HPlans_proofs HPlansCopy_proofs Bridge_effects_copy.
+From CBGen Require Import Gen_effects_copy.
+Import ListNotations.
+Local Open Scope string_scope.
+Local Open Scope list_scope.
+Local Open Scope N_scope.
+
+Theorem C11_code_copy_array_entry_followed :
+  forall refuse f a w rc (indef : bool) data al_ elems w1 al cc ctrl len_ v wd g8 g16 g32 g64 k ok0 ok1 ok2 c,
+  rd_item a w = Ret (rc, NArr indef data al_ elems) w1 ->
+  ctrl < 2 ^ 64 -> len elems < 2 ^ 64 -> len_ < 2 ^ 64 -> v < 2 ^ 64 -> (0 <= wd < 2 ^ 32)%Z ->
+  let p := Gcbor_copy al cc (Z.of_N ctrl) (dst_z (negb indef)) (Z.of_N (len elems)) (Z.of_N len_) TY_ARRAY (Z.of_N v) wd g16 g32 g64 g8 k ok0 ok1 ok2 c in
+  p_reqs p = [if indef then ReqCall "cbor_new_indefinite_array" [] else ReqCall "cbor_new_definite_array" [AZ (Z.of_N (len elems))]] /\
+  (ok0 = true -> goes_on 2 p = true /\ p_effs p = [Carry 0 (PNew 0)]) /\
+  (ok0 = false -> returns_null p = true) /\
+  copy refuse (S f) a w =
+    (r <- (if indef then new_indefinite_array refuse else new_definite_array refuse (len elems)) ;;
+     match r with None => ret None | Some rs => arr_loop refuse (copy refuse f) rs data elems end) w1.
+Proof. exact code_copy_array_entry_followed. Qed.
+Print Assumptions C11_code_copy_array_entry_followed.
+
+Theorem C11_code_copy_int_followed :
+  forall refuse f a w rc (neg : bool) iw val w1 al cc ctrl dst e len_ v g8 g16 g32 g64 k ok0 ok1 ok2 c definite,
+  rd_item a w = Ret (rc, NInt neg iw val) w1 ->
+  ctrl < 2 ^ 64 -> e < 2 ^ 64 -> len_ < 2 ^ 64 -> v < 2 ^ 64 -> dst = dst_z definite ->
+  let p := Gcbor_copy al cc (Z.of_N ctrl) dst (Z.of_N e) (Z.of_N len_) (if neg then TY_NEGINT else TY_UINT) (Z.of_N v) (iw_z iw) g16 g32 g64 g8 k ok0 ok1 ok2 c in
+  let payload := match iw with I8 => g8 | I16 => g16 | I32 => g32 | I64 => g64 end in
+  p_reqs p = ReqCall (int_builder iw) [AZ payload] :: (if neg && ok0 then [ReqCall "cbor_mark_negint" [AP (PNew 0)]] else []) /\
+  p_ret p = RP (pnew ok0 0) /\
+  copy refuse (S f) a w = build_int refuse neg iw val w1.
+Proof. exact code_copy_int_followed. Qed.
+Print Assumptions C11_code_copy_int_followed.
+
+Theorem C11_copy_tag_follows_plan :
+  forall refuse f a w rc v x w1 w2 w3 x1 x2 ty_w length size ctrl g8 g16 g32 g64,
+  rd_item a w = Ret (rc, NTag v (Some x)) w1 ->
+  incref x w1 = Ret x1 w2 -> move x w2 = Ret x2 w3 ->
+  (forall w4 ok2, copy refuse f x w3 = Ret None w4 ->
+     let p := copy_plan TY_TAG ty_w true length size v ctrl g8 g16 g32 g64 true false ok2 in
+     returns_null p = true /\ p_reqs p = [ReqCall "cbor_tag_item" [AP src]; copy_of (PNew 0)] /\
+     p_effs p = [Move (PNew 0)] /\
+     copy refuse (S f) a w = Ret None w4) /\
+  (forall ic t w4 w5, copy refuse f x w3 = Ret (Some ic) w4 -> build_tag refuse v ic w4 = Ret t w5 ->
+     let ok2 := match t with Some _ => true | None => false end in
+     let p := copy_plan TY_TAG ty_w true length size v ctrl g8 g16 g32 g64 true true ok2 in
+     p_ret p = RP (pnew ok2 2) /\
+     p_reqs p = [ReqCall "cbor_tag_item" [AP src]; copy_of (PNew 0);
+                 ReqCall "cbor_build_tag" [AZ (Z.of_N v); AP (PNew 1)]; drop (PNew 1)] /\
+     copy refuse (S f) a w = run_drops (round_val 0 (Some x) (Some ic)) (p_reqs p) (ret t) w5).
+Proof. exact copy_tag_follows_plan. Qed.
+Print Assumptions C11_copy_tag_follows_plan.
+
+Theorem C11_code_copy_plans : forall al cc ctrl definite e len ty v w g8 g16 g32 g64 k ok0 ok1 ok2 c,
+  ctrl < 2^64 -> e < 2^64 -> len < 2^64 -> v < 2^64 -> (0 <= ty < 2^32)%Z -> (0 <= w < 2^32)%Z ->
+  Gcbor_copy al cc (Z.of_N ctrl) (dst_z definite) (Z.of_N e) (Z.of_N len) ty (Z.of_N v) w g16 g32 g64 g8 k ok0 ok1 ok2 c =
+  copy_plan ty w definite len e v ctrl g8 g16 g32 g64 ok0 ok1 ok2.
+Proof. exact bridge_plan_copy. Qed.
